@@ -1,5 +1,15 @@
 use std::collections::VecDeque;
+#[cfg(tiny_http_verif)]
+use simrt::sync::{Condvar, Mutex};
+#[cfg(tiny_http_verif)]
+use simrt::time::Instant;
+#[cfg(tiny_http_verif)]
+use std::sync::Arc;
+#[cfg(not(tiny_http_verif))]
 use std::sync::{Arc, Condvar, Mutex};
+#[cfg(tiny_http_verif)]
+use std::time::Duration;
+#[cfg(not(tiny_http_verif))]
 use std::time::{Duration, Instant};
 
 enum Control<T> {
